@@ -310,6 +310,45 @@ PROPS = {
             "panics caused by failing I/O (disk full): the writer thread ends",
         ],
     },
+    "C15": {
+        "title": "Cookies: Set-Cookie formatting (deductive) and request parsing (bounded)",
+        "design_ref": "DESIGN.md section 3 (C15)",
+        "technique": "Verus contracts on the real `impl Display for Cookie` and `impl From<Cookie> for AsciiString` (write! expanded by rule R12 over the "
+                     "Display-as-contract model) against a stage-wise text specification; theorem over the specification: an RFC 6265 section 5.2 "
+                     "parser written independently of the writer reads back the name, the value and the attribute list; the request-side "
+                     "parser (iterator chains into a HashMap inside read_http_request) only by a bounded, exhaustive-over-a-small-alphabet stand-in",
+        "level_text": "Deductive proof for every cookie (every name, value, domain, path, duration, flags): the one Set-Cookie value written is "
+                      "name=value followed, in this order and each only under its condition, by `; Domain=`d, `; Expires=`t, `; HttpOnly`, "
+                      "`; Max-Age=`secs in decimal, `; Path=`p, `; SameSite=`Strict|Lax|None, `; Secure`; it is pure ASCII, so building the header "
+                      "cannot panic, and the header value is exactly that text. Theorem (thm_cookie_reads_back): for RFC-valid inputs (name "
+                      "without ';' '=' and edge blanks, value / domain / path without ';' and edge blanks) the RFC 6265 5.2 algorithm -- cut at "
+                      "the first ';', split the pair at its first '=', then attribute by attribute -- returns exactly the name, the value and "
+                      "the list [Domain, Expires, HttpOnly, Max-Age, Path, SameSite, Secure] restricted to the ones set, with their values.",
+        "level_note": "Request side (Cookie header -> map): bounded only -- stand-in c15 runs the real read_http_request on every Cookie value over "
+                      "the alphabet {a, b, '=', ';', ' '} up to 6 characters (7 thorough), pairs of fields and a corpus, against the parsing the "
+                      "property states; never counted as proved. Assumed: the std::fmt model of rule R12, Display of u64, Duration::as_secs, "
+                      "`t != UNIX_EPOCH` and `d > Duration::ZERO` as predicates (rule S1, keyed to the exact comparisons), iso8601_utc as a "
+                      "function of the instant yielding ASCII without ';', `format!(\"{cookie}\")` = the Display output, AsciiString's type "
+                      "invariant (its constructors are proved in unit headers). Not covered: interpretation of attribute values by a client "
+                      "(domain matching, date parsing of Expires -- the library writes ISO 8601, which RFC 6265 clients ignore), Cookie::new's "
+                      "panics on empty / non-ASCII names, one Set-Cookie field per cookie at the Response level (HeaderList::add, C14).",
+        "verus": ["cookie"],
+        "verus_thorough": [],
+        "kani": [],
+        "witness": "c15",
+        "assumptions": [
+            "assumed meaning of std::fmt's write! (rule R12) and of format!(\"{x}\") as the Display output",
+            "assumed: Display for u64 prints decimal digits; Duration::as_secs; the two time comparisons as predicates (rule S1 stand-ins keyed to the exact tokens)",
+            "assumed: FormatTime::iso8601_utc is a function of the instant and yields ASCII without ';' and without edge blanks (precondition cookie_ok / axiom_iso_ascii)",
+            "AsciiString's type invariant (pure ASCII): established by its constructors, proved in unit headers (C14), stated as a Verus type invariant here",
+            "RFC-valid inputs are a precondition of the read-back theorem (cookie_ok), as in the property statement",
+        ],
+        "not_covered": [
+            "request-side cookie parsing (split / trim / splitn chains into a HashMap): bounded stand-in c15 only",
+            "client-side interpretation of attribute values (Expires date syntax, Domain matching)",
+            "Cookie::new / with_domain / with_path panics on invalid input",
+        ],
+    },
     "C17": {
         "title": "Every log line is one valid JSON object that preserves the tag values",
         "design_ref": "DESIGN.md section 3 (C17)",
@@ -457,7 +496,7 @@ PROPS = {
 # are listed in its evidence as notes (they are another property's alarm, or an unproved supporting contract).
 UNIT_OWNER = {
     "time": "C16", "chunked": "C07", "headers": "C14", "copy": "C09", "body": "C09", "conn": "C05", "head": "C01",
-    "parse": "C02", "logset": "C19", "logwriter": "C19", "jsonl": "C17", "framing": "C03", "respguard": "C06", "respwrite": "C06", "errresp": "C20",
+    "parse": "C02", "logset": "C19", "logwriter": "C19", "jsonl": "C17", "cookie": "C15", "framing": "C03", "respguard": "C06", "respwrite": "C06", "errresp": "C20",
 }
 SCOPE = {
     # total request reading also needs the parsers to be panic-free
@@ -495,6 +534,5 @@ NOT_APPLICABLE = {
     "C11": "sender / writer interleavings are concurrency (bounded channel between threads); the encoder is write! + str::lines, outside both verifiers; the one contract-level fact -- EventReceiver can return Ok(0) for an event with empty data, which copy_chunked_async's contract reads as end of stream -- is recorded in C07's assumptions",
     "C12": "the slot pool is a channel mutated through &self from several tasks / threads and refilled in Drop; expressing it needs Verus' atomic-invariant machinery inside the real types, and Kani has no thread or channel support",
     "C13": "a liveness / race property of accept_loop's await points against permit revocation; deductive contracts on sequentialised code cannot express it",
-    "C15": "split / trim / splitn iterator chains into a HashMap and a Display impl made of write!; no arithmetic or structural core to specify, and HashMap + fmt are beyond Kani's budget here",
     "C18": "thread-local tag isolation and exactly-once routing through a global mutex and channels under concurrent install / clear; concurrency is outside contract-based verification of sequentialised code",
 }
